@@ -20,7 +20,10 @@ class SHACLParameter(Shape):
         if path is None:
             paths = list(sg.objects(param_node, SH_path))
             if len(paths) < 1:
-                path = URIRef("http://")  # todo: is this a blank path?
+                raise ConstraintLoadError(
+                    "sh:parameter must have a value for sh:path.",
+                    "https://www.w3.org/TR/shacl/#constraint-components-parameters",
+                )
             elif len(paths) > 1:
                 raise ConstraintLoadError(
                     "sh:parameter cannot have more than one value for sh:path.",
